@@ -62,6 +62,10 @@ def cases(ctx):
         ("map.cond+key+value", [("k", "str"), ("t", "int")], "{'type': 'map_value', 'condition': {'value.is_instance': ['int', 'bool']}, 'key': {'key.not_equal_to': k}, 'value': {'value.gt': t}}", "MapValue(condition=Value.is_instance(int, bool), key=Key.not_equal_to(k), value=Value.gt(t))", pm),
         ("map.label", [("lab", "str")], "{'type': 'map_value', 'label': lab}", "MapValue(label=lab)", pm),
         ("map.label+key", [("lab", "str"), ("k", "str")], "{'type': 'map_value', 'key.eq': k, 'label': lab}", "MapValue(key=k, label=lab)", pm),
+        ("list.value.two_short", [("t", "int"), ("t2", "int")], "{'type': 'list_value', 'value.greater_than': t, 'value.less_than': t2}", "ListValue(value=Value.greater_than(t) & Value.less_than(t2))", pl),
+        ("map.key.two_short", [("n", "int")], "{'type': 'map_value', 'key.dtype.equal_to': 'str', 'key.length.equal_to': n}", "MapValue(key=Key.dtype.equal_to(str) & Key.length.equal_to(n))", pm),
+        ("map.value.three_short", [("t", "int"), ("t2", "int")], "{'type': 'map_value', 'value.dtype.eq': 'int', 'value.gt': t, 'value.lte': t2}", "MapValue(value=(Value.dtype.eq(int) & Value.gt(t)) & Value.lte(t2))", pm),
+        ("mol.index.two_short", [("k", "str"), ("n", "int"), ("t", "int")], "{'type': 'map_or_list_value', 'index.greater_than': n, 'index.less_than': t, 'key.eq': k}", "MapOrListValue(index=Index.greater_than(n) & Index.less_than(t), key=k)", pl),
         ("list.index.long", [("n", "int")], "{'type': 'list_value', 'index': {'index.equal_to': n}}", "ListValue(index=n)", pl),
         ("list.index.short", [("n", "int")], "{'type': 'list_value', 'index.less_than': n}", "ListValue(index=Index.less_than(n))", pl),
         ("list.value.long", [("t", "int")], "{'type': 'list_value', 'value': {'value.eq': t}}", "ListValue(value=t)", pl),
